@@ -1157,13 +1157,20 @@ static int handle_message(
     cli_mutex_unlock(&output_mutex);
   }
 
+  // total_count is shared by all the scanning threads.
+  cli_mutex_lock(&output_mutex);
+
   if (is_matching)
   {
     ((CALLBACK_ARGS*) data)->current_count++;
     total_count++;
   }
 
-  if (limit != 0 && total_count >= limit)
+  bool limit_reached = (limit != 0 && total_count >= limit);
+
+  cli_mutex_unlock(&output_mutex);
+
+  if (limit_reached)
     return CALLBACK_ABORT;
 
   return CALLBACK_CONTINUE;
@@ -1282,7 +1289,13 @@ static int callback(
 
   case CALLBACK_MSG_CONSOLE_LOG:
     if (!disable_console_logs)
+    {
+      // Don't let the message land in the middle of a line that another
+      // thread is printing.
+      cli_mutex_lock(&output_mutex);
       _tprintf(_T("%" PF_S "\n"), (char*) message_data);
+      cli_mutex_unlock(&output_mutex);
+    }
     return CALLBACK_CONTINUE;
   }
 
